@@ -138,16 +138,21 @@ def scripts_from_graph(nodes, edges, inits, kinds, limit=None, variant_of=lambda
     Returns (scripts, edges_covered, edges_total, classes_covered, classes_total)."""
     import random
     rnd = random.Random(seed)
+    # TLC's node ids are fingerprints under a per-run random polynomial: order by state content instead, so that
+    # the same scripts are chosen on every run
+    import hashlib
+    canon = {n: hashlib.md5(repr(sorted((k, repr(v)) for k, v in st.items())).encode()).hexdigest()
+             for n, st in nodes.items()}
     succ = {}
     for a, b in edges:
         if a != b:
             succ.setdefault(a, []).append(b)
     for a in succ:
-        succ[a] = sorted(set(succ[a]), key=lambda n: (len(succ.get(n, ())) == 0, n))
+        succ[a] = sorted(set(succ[a]), key=lambda n: (len(succ.get(n, ())) == 0, canon[n]))
     # BFS tree from the initial states
     parent = {}
     order = []
-    frontier = sorted(inits)
+    frontier = sorted(inits, key=lambda n: canon[n])
     for i in frontier:
         parent[i] = None
     while frontier:
@@ -159,6 +164,7 @@ def scripts_from_graph(nodes, edges, inits, kinds, limit=None, variant_of=lambda
                     parent[b] = a
                     nxt.append(b)
         frontier = nxt
+    order.sort(key=lambda n: canon[n])
     all_edges = [(a, b) for a in order for b in succ.get(a, ())]
     cls_of = {}
     members = {}
@@ -673,10 +679,19 @@ def run_plan(ctx, jobs, workers=4):
                     seen_ops.add('%s/%s%s' % (ev['k'], ev['out'], '/grant' if ev['step'] == 'grant' else ''))
             info.update(behaviours=len(scripts), states_along_behaviours=sum(len(b) for b in behaviours))
             exhaustive_all = False
+        elif job['how'] == 'negative':
+            # negative control: with the defect transcribed into the model, TLC must find the counterexample
+            res = tlc.run('PonyOCC', text, ctx.scratch, workers=workers, must_succeed=False, tag=job['name'])
+            if job['expect'] not in res.violated:
+                raise MachineryError('negative control %s: TLC did not report %s violated (violated: %s)\n%s'
+                                     % (job['name'], job['expect'], res.violated, res.stdout[-1500:]))
+            info.update(violated_as_expected=job['expect'], states_until_counterexample=res.distinct)
         else:
             raise MachineryError('unknown job kind %r' % job['how'])
         bad = 0
         for sc in scripts:
+            if len(ctx.violations) >= 40:
+                break                      # the verdict is settled; do not replay the remaining interleavings
             mm = replay_script(worlds.get(sc), sc)
             traces += 1
             if mm is not None:
